@@ -342,9 +342,15 @@ class RTCIceTransport(AsyncIOEventEmitter):
         try:
             await self._connection.connect()
         except ConnectionError:
-            self.__setState("failed")
+            if self.state != "closed":
+                self.__setState("failed")
         else:
-            self.__setState("completed")
+            if self.state == "closed":
+                # stop() was called while the connection was being established:
+                # aioice has just started its consent checks, shut them down.
+                await self._connection.close()
+            else:
+                self.__setState("completed")
         self.__start.set()
 
     async def stop(self) -> None:
